@@ -188,6 +188,8 @@ CHECKS["C15"] = {
 
 CHECKS["C15"]["runs"].append({"name": "run.mux.query", "files": [G + "c15_query.go"] + MUX, "fn": "VerifH_C15_query", "workers": 16,
                               "params_quick": {"L": 3}, "params_thorough": {"L": 5}, "reach": ["filtered"], "budget_quick": 600, "budget_thorough": 3600})
+CHECKS["C15"]["runs"].append({"name": "run.mux.query.multivariant", "files": [G + "c15_query.go", G + "c16_multivariant.go", G + "c06_reload.go"] + MUX, "fn": "VerifH_C15_mvquery", "workers": 16,
+                              "params_quick": {"L": 3}, "params_thorough": {"L": 5}, "reach": ["generated"], "budget_quick": 600, "budget_thorough": 3600})
 C16F = [G + "c16_multivariant.go", G + "c06_reload.go"] + MUX
 CHECKS["C16"] = {
     "technique": "symbolic track lists through the real Start and generateMultivariantPlaylist; multivariant checks inside the bounded muxer runs; non-linear lemma on bandwidth()",
